@@ -11,8 +11,10 @@ CONSTANTS
   WholeOnly = FALSE
   Sizes = {1}
   FixCommonSnapshot = TRUE
+  Dev_StalePathReuse = FALSE
   GenDepth = 11
   GenHistory = TRUE
   GenReject = TRUE
+  GenOnlyAfterReject = FALSE
 INVARIANT Emit
 CHECK_DEADLOCK FALSE
